@@ -259,6 +259,26 @@ func randomForms(seed int64, nforms, ncb *int) func(n *Node, first bool) string 
 	}
 }
 
+// randomDoSplits: for about one statement in six, a number of leading items that a Do callback writes (C14: Do is a
+// construct with the three forms, and its callback runs once, inside the call).  ncb counts them.
+func randomDoSplits(seed int64, nforms, ncb *int) func(n *Node) int {
+	r := rand.New(rand.NewSource(seed ^ 0x5eed))
+	decided := map[*Node]int{}
+	return func(n *Node) int {
+		d, ok := decided[n]
+		if !ok {
+			d = -1
+			if r.Intn(6) == 0 {
+				d = r.Intn(len(n.Items) + 1)
+				*nforms++
+				*ncb++
+			}
+			decided[n] = d
+		}
+		return d
+	}
+}
+
 // variantFacts compares a variant's renderings with the unchanged execution.
 func variantFacts(vi *VariantInfo, status string, out, raw []byte, cbBuild, cbRender, nfunc int) Rec {
 	f := Rec{"prop": vi.Prop, "n": vi.N, "sameraw": string(raw) == string(vi.BaseRaw), "sameout": status == vi.BaseStat && string(out) == string(vi.BaseOut),
